@@ -27,7 +27,7 @@ func c09Msg(id uint64, size int, squeeze bool) *gen.Msg {
 }
 
 func c09(run *ev.Run) int {
-	run.SetRule("limit cases = N in {2,10,100,1000,65536,131072} (thorough: 13 values from 1 to 1 MiB) x encoded size in {N-1,N,N+1,10N} (exact, proto codec; JSON sampled) x {identity, gzip} x position {first,middle,last} of a 3-message stream (or the single unary message) x 3 protocols x 4 kinds x {handler-side limit, client-side limit}; hostile cases = lying prefixes (2^32-1, 2^31, N+1 declared with 3 bytes present; <=N declared with fewer present), 32 MiB envelopes with reserved flags, 64/256 MiB gzip bombs (as data messages, as compressed Connect end-of-stream messages and gRPC-Web trailer frames, as unary Connect error bodies), each measured alone on one goroutine with runtime.MemStats.TotalAlloc; oracle: delivered <=> encoded size <= N (wire and decompressed; raw<=N<wire is either), failing call has invalid_argument/resource_exhausted, earlier messages delivered and none after, allocation for one message <= 16N + slack; distinct by (N, size class, compression class, position, protocol, kind, side)")
+	run.SetRule("limit cases = N in {2,10,100,1000,65536,131072} (thorough: 13 values from 1 to 1 MiB) x encoded size in {N-1,N,N+1,10N} (exact, proto codec; JSON sampled) x {identity, gzip} x position {first,middle,last} of a 3-message stream (or the single unary message) x 3 protocols x 4 kinds x {handler-side limit, client-side limit}; hostile cases = lying prefixes (2^32-1, 2^31, N+1 declared with 3 bytes present; <=N declared with fewer present), 32 MiB envelopes with reserved flags, 64/256 MiB gzip bombs (as data messages, as compressed Connect end-of-stream messages and gRPC-Web trailer frames, as unary Connect error bodies), valid small bodies under a Content-Length unrelated to them (2^62 ... unknown), each measured alone on one goroutine with runtime.MemStats.TotalAlloc; oracle: delivered <=> encoded size <= N (wire and decompressed; raw<=N<wire is either), failing call has invalid_argument/resource_exhausted, earlier messages delivered and none after, allocation for one message <= 16N + slack; distinct by (N, size class, compression class, position, protocol, kind, side)")
 	Ns := []int{2, 10, 100, 1000, 65536, 131072}
 	if !run.Quick() {
 		Ns = []int{1, 2, 3, 10, 50, 100, 500, 1000, 4096, 65535, 65536, 131072, 1 << 20}
@@ -399,6 +399,38 @@ func c09Hostile(run *ev.Run) {
 				}
 			}
 		}
+	}
+	// A declared Content-Length that has nothing to do with the (small, valid)
+	// body must not size anything: with a read limit N the receiver stays under
+	// the same allocation bound, and it never panics.
+	if !run.Replaying() || strings.Contains(run.ReplayKey(), "/declared-length/") {
+		declaredLengthHandler(run, "c09/hostile", N, func(key string, _ *svc.HLog, _ *wire.Result, panicked any, hung bool, alloc uint64, detail map[string]any) {
+			run.Count("alloc.measured", 1)
+			detail["allocated"], detail["bound"] = alloc, bound
+			switch {
+			case hung:
+				run.Violation(key+"/hang", "ServeHTTP did not return", detail)
+			case panicked != nil:
+				run.Violation(key+"/panic", fmt.Sprintf("ServeHTTP panicked: %v", panicked), detail)
+			case detail["handler_read_limit"] == true && alloc > bound:
+				run.Violation(key+"/allocation", fmt.Sprintf("serving a %v-byte request that declares Content-Length %v allocated %d bytes with a read limit of %d (bound %d)", detail["actual_body_bytes"], detail["declared_content_length"], alloc, N, bound), detail)
+			}
+			if alloc > maxAlloc && detail["handler_read_limit"] == true {
+				maxAlloc = alloc
+			}
+		})
+		declaredLengthClient(run, "c09/hostile", N, func(key string, _ *svc.CLog, panicked any, hung bool, alloc uint64, detail map[string]any) {
+			run.Count("alloc.measured", 1)
+			detail["allocated"], detail["bound"] = alloc, bound
+			switch {
+			case hung:
+				run.Violation(key+"/hang", "client call did not return", detail)
+			case panicked != nil:
+				run.Violation(key+"/panic", fmt.Sprintf("client call panicked: %v", panicked), detail)
+			case detail["client_read_limit"] == true && alloc > bound:
+				run.Violation(key+"/allocation", fmt.Sprintf("receiving a %v-byte response that declares Content-Length %v allocated %d bytes with a read limit of %d (bound %d)", detail["actual_body_bytes"], detail["declared_content_length"], alloc, N, bound), detail)
+			}
+		})
 	}
 	// The unary Connect error body travels in the slot of the response message:
 	// a hostile server must not be able to make a client with a read limit
